@@ -11,6 +11,7 @@ INVARIANT C15a_DofCountsWeighted
 INVARIANT C15a_NormalPosDef
 INVARIANT C15a_NoBetterNeighbour
 INVARIANT C15a_ZeroWeightIgnored
+INVARIANT C15a_LayoutIndependent
 INVARIANT C15a_HomogeneousInB
 INVARIANT C15a_HomogeneousInS
 INVARIANT C15a_HomogeneousInA
